@@ -658,6 +658,51 @@ where
     ("c11-manager-never-lists-storage", ["C11"], [], [(CORE + "epoch_snapshots.rs", """        let stored_snapshots = match storage.list_group_snapshots(group_id) {
             Ok(snapshots) => snapshots,""", """        let stored_snapshots: Vec<(String, u64)> = match storage.prune_expired_snapshots(0).map(|_| Vec::new()) {
             Ok(snapshots) => snapshots,""")]),
+    ("c02-tags-not-from-rumor", ["C02"], [], [(CORE + "messages/application.rs", "            tags: rumor.tags.clone(),", "            tags: event.tags.clone(),")]),
+    ("c02-created-at-is-now", ["C02"], [], [(CORE + "messages/application.rs", "            created_at: rumor.created_at,", "            created_at: now,")]),
+    ("c02-wrapper-id-is-rumor-id", ["C02"], [], [(CORE + "messages/application.rs", "            wrapper_event_id: event.id,\n            state: message_types::MessageState::Processed,", "            wrapper_event_id: rumor_id,\n            state: message_types::MessageState::Processed,")]),
+    ("c02-message-not-saved", ["C02"], [], [(CORE + "messages/application.rs", "        self.save_message_record(message.clone())?;", "        if group.last_message_id.is_none() {\n            self.save_message_record(message.clone())?;\n        }")]),
+    ("c08-upsert-keeps-old-routing-id", ["C10"], [], [(SQL + "groups.rs", "                nostr_group_id = excluded.nostr_group_id,\n                name = excluded.name,", "                name = excluded.name,")]),
+    ("c08-unique-index-dropped", ["C08"], [], [("crates/mdk-sqlite-storage/migrations/V001__initial_schema.sql", "CREATE UNIQUE INDEX IF NOT EXISTS idx_groups_nostr_group_id ON groups(nostr_group_id);", "CREATE INDEX IF NOT EXISTS idx_groups_nostr_group_id ON groups(nostr_group_id);")]),
+    ("c10-message-upsert-by-id-only", ["C10", "C18"], [], [(SQL + "messages.rs", "             ON CONFLICT(mls_group_id, id) DO UPDATE SET", "             ON CONFLICT(id) DO UPDATE SET")]),
+    ("c10-message-upsert-drops-state", ["C10", "C18"], [], [(SQL + "messages.rs", "                 epoch = excluded.epoch,\n                 state = excluded.state\",", "                 epoch = excluded.epoch\",")]),
+    ("c13-cipher-compat-not-pinned", ["C13"], [], [(SQL + "encryption.rs", "    conn.execute_batch(\"PRAGMA cipher_compatibility = 4;\")?;\n", "")]),
+    ("c13-key-after-compat", ["C13"], [], [(SQL + "encryption.rs", """    conn.execute_batch(&format!("PRAGMA key = \\"{key}\\";"))?;
+
+    // Pin SQLCipher 4.x defaults to prevent issues with future SQLCipher upgrades
+    conn.execute_batch("PRAGMA cipher_compatibility = 4;")?;
+""", """    conn.execute_batch("PRAGMA cipher_compatibility = 4;")?;
+    conn.execute_batch(&format!("PRAGMA key = \\"{key}\\";"))?;
+""")]),
+    ("c13-key-logged", ["C13", "C14"], [], [(SQL + "encryption.rs", """    let key = config.to_sqlcipher_key();
+""", """    let key = config.to_sqlcipher_key();
+    tracing::debug!("keying connection with {}", key);
+""")]),
+    ("c13-wrong-key-generic-error", ["C13"], [], [(SQL + "encryption.rs", """            // This error typically means wrong key or not an encrypted database
+            Err(Error::WrongEncryptionKey)""", """            // This error typically means wrong key or not an encrypted database
+            Err(Error::Database("not a database".to_string()))""")]),
+    ("c13-keyring-store-outside-lock", ["C13"], [], [(SQL + "keyring.rs", """    let lock = KEY_GENERATION_LOCK.get_or_init(|| Mutex::new(()));
+    let _guard = lock
+        .lock()
+        .map_err(|e| Error::Keyring(format!("Failed to acquire key generation lock: {}", e)))?;
+""", """    let lock = KEY_GENERATION_LOCK.get_or_init(|| Mutex::new(()));
+    drop(
+        lock.lock()
+            .map_err(|e| Error::Keyring(format!("Failed to acquire key generation lock: {}", e)))?,
+    );
+""")]),
+    ("c14-snapshot-debug-prints-name", ["C14"], [], [(CORE + "epoch_snapshots.rs", """            "EpochSnapshot {{ group_id: [REDACTED], epoch: {}, applied_commit_id: {:?}, applied_commit_ts: {}, snapshot_name: [REDACTED] }}",
+            self.epoch, self.applied_commit_id, self.applied_commit_ts,""", """            "EpochSnapshot {{ group_id: [REDACTED], epoch: {}, applied_commit_id: {:?}, applied_commit_ts: {}, snapshot_name: {} }}",
+            self.epoch, self.applied_commit_id, self.applied_commit_ts, self.snapshot_name,""")]),
+    ("c19-storage-nested-lock", ["C19"], [], [(MEM + "lib.rs", """        let snapshot = self.create_group_scoped_snapshot(group_id);
+        self.group_snapshots
+            .write()
+            .insert((group_id.clone(), name.to_string()), snapshot);""", """        let mut snapshots = self.group_snapshots.write();
+        let snapshot = self.create_group_scoped_snapshot(group_id);
+        snapshots.insert((group_id.clone(), name.to_string()), snapshot);""")]),
+    ("c20-sqlite-prune-by-name", ["C20"], [], [(SQL + "lib.rs", """                "DELETE FROM group_state_snapshots WHERE created_at < ?",
+                rusqlite::params![min_timestamp as i64],""", """                "DELETE FROM group_state_snapshots WHERE created_at > ?",
+                rusqlite::params![min_timestamp as i64],""")]),
     ("c20-no-prune-after-hydration", ["C20"], [], [(CORE + "epoch_snapshots.rs", """        // Enforce retention limit after hydration
         while queue.len() > self.retention_count {
             if let Some(old_snap) = queue.pop_front() {
